@@ -581,6 +581,15 @@ func (s *service) handleSubscribe(ctx context.Context, peerId string, sub *pubsu
 			s.pruneStream(streamId, strm)
 			s.pruneSpace(sub.SpaceId, si)
 		}
+	} else {
+		// nothing was accepted (empty frame, only known patterns, or the cap hit on the
+		// first one): drop the records created above if they are still empty, so that
+		// no empty trie or stream record outlives the stream
+		if len(spacePatterns) == 0 {
+			delete(strm.bySpace, sub.SpaceId)
+		}
+		s.pruneStream(streamId, strm)
+		s.pruneSpace(sub.SpaceId, si)
 	}
 	s.remoteMu.Unlock()
 
